@@ -105,7 +105,12 @@ class C04(core.Check):
     def generate(self, rng, n, tier):
         for k in range(n):
             focus = [None, 'multicategorical', 'categorical', 'text_embedded', 'embedding', 'image_embedded'][k % 6]
-            frame = mg.gen_frame(rng, focus=focus)
+            if k % 89 == 7:
+                # a long frame (size-gated code paths: whole-frame conversion vs. short selections of it)
+                frame = mg.gen_frame(rng, n=rng.randint(1024, 1100), ncols=rng.choice([1, 2, 3]),
+                                     focus=rng.choice(['categorical', 'multicategorical', None]))
+            else:
+                frame = mg.gen_frame(rng, focus=focus)
             labels = mg.gen_labels(rng, frame['n']) if rng.random() < 0.3 else mg.gen_labels(rng, frame['n'], 'range')
             yield {'frame': frame, 'labels': labels, 'supplied': rng.random() < 0.5,
                    'calls': [gen_call(rng, frame) for _ in range(rng.randint(1, 4))]}
